@@ -671,7 +671,9 @@ class WebSocketResponse(StreamResponse, Generic[_DecodeText]):
                     # likely result writing to a broken pipe.
                     await self.close(drain=False)
             elif msg.type is WSMsgType.CLOSING:
-                self._set_closing(WSCloseCode.OK)
+                # close() was called from another task; it closes the transport
+                # without waiting for the peer's Close frame.
+                self._set_closing(WSCloseCode.ABNORMAL_CLOSURE)
             elif msg.type is WSMsgType.PING and self._autoping:
                 await self.pong(msg.data)
                 continue
